@@ -180,6 +180,13 @@ def plan(pid, tier):
                ("simple", 2, 1, 1, 1), ("simple", 1, 2, 0, 1), ("simple", 2, 1, 0, 1), ("simple", 1, 1, 2, 1)]
     for (s, K, M, S, Pn) in cfg:
         P.append(("STEP %s K=%d M=%d stale=%d pending=%d" % (s, K, M, S, Pn), layout.step_tasks(s, K, M, S, Pn), dict(base)))
+    # deeper shapes of `simple` over a narrower value domain (the cost of `simple` is in the values: the bit loop of
+    # select_best and the div/mod chains; the gap bookkeeping bugs are in the shapes)
+    narrow = [(2, 2, [1, 2], 6, 24), (3, 1, [1, 2], 6, 24)] if tier == "quick" else \
+             [(2, 2, [1, 2, 4], 8, 32), (3, 1, [1, 2, 4], 8, 32), (3, 2, [1, 2], 4, 16), (2, 3, [1, 2], 4, 16)]
+    for (K, M, al, smax, omax) in narrow:
+        P.append(("STEP simple K=%d M=%d narrow domain (alignments %s, sizes <= %d, offsets <= %d)" % (K, M, al, smax, omax),
+                  layout.step_tasks("simple", K, M, 0, 0, aligns=al), dict(base, aligns=al, smax=smax, omax=omax)))
     # arbitrary definition satisfying the invariant: capacity / alignment / Display (C02 capacity clause, C13)
     for (K, Pn) in ([(3, 1), (4, 0)] if tier == "quick" else [(4, 1), (5, 1), (3, 2)]):
         P.append(("DEF K=%d pending=%d" % (K, Pn), layout.def_tasks(K, Pn), dict(base, final=True)))
@@ -287,6 +294,7 @@ def run(pid, tier):
     cands = {}     # (message) -> (task, model)
     inv_breaks = []
     errors = []
+    stopped_early = None
     the_plan = plan(pid, tier) if pid in ("C01", "C02", "C03", "C13") else plan_other(pid, tier)
     for label, tasks, opts in the_plan:
         if time.time() > deadline:
@@ -308,10 +316,15 @@ def run(pid, tier):
                     inv_breaks.append((label, task, part, model))
                     continue
                 cands.setdefault((label, key), (task, part, model))
+        # a counterexample candidate for this property is in hand: replay it rather than spend the budget
+        # exploring a tree on which every path may now fork further
+        if any(any(part.startswith(p) for p in PREFIX[pid]) for (_, part, _) in cands.values()):
+            stopped_early = label
+            break
     # ---- the invariant broke on some path: the induction no longer covers what follows such a state.
     # Continue from those (concrete, reachable) states with further symbolic closes and look for
     # violations of the properties themselves.
-    if inv_breaks and time.time() < deadline:
+    if inv_breaks and time.time() < deadline and not stopped_early:
         seen_models = []
         cont = []
         for lab, task, part, model in inv_breaks:
@@ -463,6 +476,7 @@ def run(pid, tier):
         "encoder_validation": "%d random concrete histories agree between native run and interpreter" % agreed,
         "mir_dump": info,
         "inv_breaks": len(inv_breaks),
+        "stopped_at_first_candidate": stopped_early,
         "build_fact": build_fact,
         "kgen_layout_harnesses": kgen_layout,
         "repo_head": repo_head(),
